@@ -446,7 +446,7 @@ class SocketConnection(object):
         with contextlib.suppress(Exception):
             self.sock.close()
         self.pyroInstances = {}   # release the session instances
-        for rsc in self.tracked_resources:
+        for rsc in list(self.tracked_resources):     # a snapshot: a resource's close() may untrack it, which changes the set
             with contextlib.suppress(Exception):
                 rsc.close()     # it is assumed a 'resource' has a close method.
         self.tracked_resources.clear()
